@@ -88,51 +88,6 @@ theorem C08_exception_serial (cfg : Cfg) (s0 : St) (h0 : WF s0) (hdir : s0.fs.is
   C08_exception cfg.env (tryBody cfg s0) (postEffs cfg s0) (tryBody_tmpOnly cfg s0) s0 h0 hdir n0 f k p
     hk hone hlo hhi
 
-/-- **C08_invalidate_only_if** (every fault assignment, every visited state): a tensor that was
-valid before the save is invalid only if it is one of the tensors backed by the destination
-(`os.path.samefile` at the start) *and* `os.replace` has been executed — the destination now
-names the fresh inode, not the one it named before. -/
-theorem C08_invalidate_only_if (cfg : Cfg) (s0 : St) (h0 : WF s0) (n0 : Nat) (f : Nat → Option Nat) :
-    ∀ st ∈ (save cfg f n0 s0).steps, ∀ i, st.st.valid i = false →
-      s0.valid i = false ∨
-      (i ∈ overwritten cfg s0 ∧ st.st.replaced = true ∧
-        st.st.fs.file (.user cfg.env.dest) = some s0.fs.next ∧
-        st.st.fs.file (.user cfg.env.dest) ≠ s0.fs.file (.user cfg.env.dest)) := by
-  intro st hst i hi
-  have hr := save_afterReplace cfg s0 h0 n0
-  rcases (saveWith_two_phase (twoPhase_save cfg s0 h0 n0) (tryBody_tmpOnly cfg s0) f).1 st hst with h | h
-  · left; rw [← h.valid]; exact hi
-  · rcases h.only i hi with h1 | h1
-    · exact Or.inl h1
-    · right
-      have hd : st.st.fs.file (.user cfg.env.dest) = some s0.fs.next := by
-        rw [h.frozen.user, hr.dest]
-      refine ⟨h1, by rw [h.frozen.replaced, hr.replaced], hd, ?_⟩
-      rw [hd]
-      intro heq
-      have := h0.named _ _ heq.symm
-      omega
-
-/-- **C08_invalidate_iff**: if no effect after `os.replace` fails (clean-up and the invalidation
-loop run), then when the save ends — normally or with an exception — a tensor is invalid iff it
-was already invalid, or it is backed by the destination and the destination was replaced.
-(Failure of `os.rmdir` after a successful replace is excluded: see `C08_cleanup_gap`.) -/
-theorem C08_invalidate_iff (cfg : Cfg) (s0 : St) (h0 : WF s0) (hrep : s0.replaced = false) (n0 : Nat)
-    (f : Nat → Option Nat) (hlate : ∀ m, n0 + 1 + (tryBody cfg s0).length < m → f m = none) (i : Nat) :
-    (save cfg f n0 s0).final.valid i = false ↔
-      (s0.valid i = false ∨ (i ∈ overwritten cfg s0 ∧ (save cfg f n0 s0).final.replaced = true)) := by
-  have hr := save_afterReplace cfg s0 h0 n0
-  rcases save_final_cases cfg s0 h0 n0 f hlate with ⟨_, ho⟩ | ⟨_, hp, hall⟩
-  · rw [ho.valid, ho.replaced, hrep]; simp
-  · constructor
-    · intro hi
-      rcases hp.only i hi with h1 | h1
-      · exact Or.inl h1
-      · exact Or.inr ⟨h1, by rw [hp.frozen.replaced, hr.replaced]⟩
-    · rintro (h1 | ⟨h1, _⟩)
-      · exact hp.keep i h1
-      · exact hall i h1
-
 /-- Membership in `overwritten` means what `_write_external_data` 464-469 computes: the tensor at
 that position is external and its path and the destination are the same file (same inode). -/
 theorem C08_overwritten_spec (fs : FS) (dest : String) :
@@ -167,6 +122,124 @@ theorem C08_overwritten_spec (fs : FS) (dest : String) :
         refine ⟨t', e, ?_, by omega, h3, h4⟩
         have : i - b = (i - (b + 1)) + 1 := by omega
         rw [this] at h1; simpa using h1
+
+/-- Membership in `invalidated`: the tensor at that position is external, its path and the
+destination were the same file before the save, and its path *is* the destination name. -/
+theorem C08_invalidated_spec (fs : FS) (dest : String) :
+    ∀ (ts : List Tensor) (b i : Nat), i ∈ invalidatedFrom fs dest b ts ↔
+      ∃ t e, ts[i - b]? = some t ∧ b ≤ i ∧ t.ext = some e ∧
+        sameFile fs (.user e.path) (.user dest) = true ∧ e.path = dest
+  | [], b, i => by simp [invalidatedFrom]
+  | t :: ts, b, i => by
+    simp only [invalidatedFrom, List.mem_append]
+    rw [C08_invalidated_spec fs dest ts (b + 1) i]
+    constructor
+    · rintro (h | ⟨t', e, h1, h2, h3, h4⟩)
+      · cases he : t.ext with
+        | none => simp [he] at h
+        | some e =>
+          simp only [he] at h
+          split at h
+          · rename_i hs
+            simp at h; subst h
+            simp only [Bool.and_eq_true, beq_iff_eq] at hs
+            exact ⟨t, e, by simp, Nat.le_refl _, he, hs.1, hs.2⟩
+          · simp at h
+      · refine ⟨t', e, ?_, by omega, h3, h4⟩
+        have : i - b = (i - (b + 1)) + 1 := by omega
+        rw [this]; simpa using h1
+    · rintro ⟨t', e, h1, h2, h3, h4, h5⟩
+      by_cases hib : i = b
+      · left
+        subst hib
+        simp at h1; subst h1
+        rw [h5] at h4
+        simp [h3, h4, h5]
+      · right
+        refine ⟨t', e, ?_, by omega, h3, h4, h5⟩
+        have : i - b = (i - (b + 1)) + 1 := by omega
+        rw [this] at h1; simpa using h1
+
+/-- Every invalidated tensor is one of the collected (released) ones. -/
+theorem C08_invalidated_sub (fs : FS) (dest : String) (ts : List Tensor) (b i : Nat)
+    (h : i ∈ invalidatedFrom fs dest b ts) : i ∈ overwrittenFrom fs dest b ts := by
+  rcases (C08_invalidated_spec fs dest ts b i).mp h with ⟨t, e, h1, h2, h3, h4, _⟩
+  exact (C08_overwritten_spec fs dest ts b i).mpr ⟨t, e, h1, h2, h3, h4⟩
+
+/-- **C08_post_samefile** (the dynamic test of the fixed loop, 504): in the state right after the
+successful `os.replace`, for every external tensor (in particular the collected ones),
+`samefile(tensor.path, destination_path)` holds iff the tensor's path is the destination name —
+another hard link of the old inode still names the old inode, so the test fails for it. This is
+what `invalidated` filters on. -/
+theorem C08_post_samefile (cfg : Cfg) (s0 : St) (h0 : WF s0) (n0 : Nat) (e : Ext) :
+    sameFile (afterReplace cfg.env (tryBody cfg s0) n0 s0).fs (.user e.path) (.user cfg.env.dest)
+      = (e.path == cfg.env.dest) := by
+  have hr := save_afterReplace cfg s0 h0 n0
+  by_cases hp : e.path = cfg.env.dest
+  · simp [sameFile, hp, hr.dest]
+  · have hb : (e.path == cfg.env.dest) = false := by simpa using hp
+    rw [hb]
+    simp only [sameFile, hr.others e.path hp, hr.dest]
+    cases hf : s0.fs.file (.user e.path) with
+    | none => rfl
+    | some a =>
+      have := h0.named _ _ hf
+      have hne : a ≠ s0.fs.next := by omega
+      simp [hne]
+
+/-- **C08_invalidate_only_if** (every fault assignment, every visited state): a tensor that was
+valid before the save is invalid only if it is in `invalidated` — external, the same file as the
+destination before the save, reached through the destination name — *and* `os.replace` has been
+executed: the destination, hence the tensor's own path, now names the fresh inode, not the one it
+named before (its backing file was actually replaced). -/
+theorem C08_invalidate_only_if (cfg : Cfg) (s0 : St) (h0 : WF s0) (n0 : Nat) (f : Nat → Option Nat) :
+    ∀ st ∈ (save cfg f n0 s0).steps, ∀ i, st.st.valid i = false →
+      s0.valid i = false ∨
+      (i ∈ invalidated cfg s0 ∧ st.st.replaced = true ∧
+        st.st.fs.file (.user cfg.env.dest) = some s0.fs.next ∧
+        st.st.fs.file (.user cfg.env.dest) ≠ s0.fs.file (.user cfg.env.dest) ∧
+        ∃ t e, cfg.tensors[i]? = some t ∧ t.ext = some e ∧
+          st.st.fs.file (.user e.path) = some s0.fs.next ∧
+          st.st.fs.file (.user e.path) ≠ s0.fs.file (.user e.path)) := by
+  intro st hst i hi
+  have hr := save_afterReplace cfg s0 h0 n0
+  rcases (saveWith_two_phase (twoPhase_save cfg s0 h0 n0) (tryBody_tmpOnly cfg s0) f).1 st hst with h | h
+  · left; rw [← h.valid]; exact hi
+  · rcases h.only i hi with h1 | h1
+    · exact Or.inl h1
+    · right
+      have hd : st.st.fs.file (.user cfg.env.dest) = some s0.fs.next := by
+        rw [h.frozen.user, hr.dest]
+      have hne : st.st.fs.file (.user cfg.env.dest) ≠ s0.fs.file (.user cfg.env.dest) := by
+        rw [hd]
+        intro heq
+        have := h0.named _ _ heq.symm
+        omega
+      refine ⟨h1, by rw [h.frozen.replaced, hr.replaced], hd, hne, ?_⟩
+      rcases (C08_invalidated_spec s0.fs cfg.env.dest cfg.tensors 0 i).mp h1 with ⟨t, e, ht, _, he, _, hp⟩
+      exact ⟨t, e, by simpa using ht, he, by rw [hp]; exact hd, by rw [hp]; exact hne⟩
+
+/-- **C08_invalidate_iff**: if no effect after `os.replace` fails (clean-up and the invalidation
+loop run), then when the save ends — normally or with an exception — a tensor is invalid iff it
+was already invalid, or it is in `invalidated` (backed by the destination through the destination
+name) and the destination was replaced. In particular a tensor reading the old inode through
+another hard link stays valid. (Failure of `os.rmdir` after a successful replace is excluded: see
+`C08_cleanup_gap`.) -/
+theorem C08_invalidate_iff (cfg : Cfg) (s0 : St) (h0 : WF s0) (hrep : s0.replaced = false) (n0 : Nat)
+    (f : Nat → Option Nat) (hlate : ∀ m, n0 + 1 + (tryBody cfg s0).length < m → f m = none) (i : Nat) :
+    (save cfg f n0 s0).final.valid i = false ↔
+      (s0.valid i = false ∨ (i ∈ invalidated cfg s0 ∧ (save cfg f n0 s0).final.replaced = true)) := by
+  have hr := save_afterReplace cfg s0 h0 n0
+  rcases save_final_cases cfg s0 h0 n0 f hlate with ⟨_, ho⟩ | ⟨_, hp, hall⟩
+  · rw [ho.valid, ho.replaced, hrep]; simp
+  · constructor
+    · intro hi
+      rcases hp.only i hi with h1 | h1
+      · exact Or.inl h1
+      · exact Or.inr ⟨h1, by rw [hp.frozen.replaced, hr.replaced]⟩
+    · rintro (h1 | ⟨h1, _⟩)
+      · exact hp.keep i h1
+      · exact hall i h1
 
 /-- **C08_sharded_no_touch**: a (sequential) sharded save never changes a file that existed
 before — in every visited state (any crash point) and at the end, for every fault assignment,
@@ -293,7 +366,7 @@ theorem exSt_wf : WF exSt :=
 
 /-- the hypotheses of the theorems are satisfiable, and the run really replaces the file -/
 example : WF exSt ∧ exSt.fs.isDir .tmpDir = false ∧ exSt.replaced = false := ⟨exSt_wf, rfl, rfl⟩
-example : overwritten exCfg exSt = [1] := by decide
+example : overwritten exCfg exSt = [1] ∧ invalidated exCfg exSt = [1] := by decide
 example : (save exCfg (fun _ => none) 0 exSt).faulted = false := by decide
 example : content (save exCfg (fun _ => none) 0 exSt).final (.user "m.data") = some [9, 9, 8, 1, 2] := by
   decide
@@ -324,6 +397,17 @@ theorem C08_cleanup_gap :
     r.faulted = true ∧ r.final.replaced = true ∧
     content r.final (.user "m.data") = some [9, 9, 8, 1, 2] ∧ r.final.valid 1 = true ∧
     readT r.final 1 ⟨"m.data", 0, 2⟩ = some [9, 9] := by decide
+
+/-- hard link (D133, fixed): tensor 1 reads the old inode through `hard.data`; it is collected (released)
+but not invalidated, and still reads the old bytes after the destination was replaced -/
+example :
+    let fs : FS := { exFS with file := fun p => if p = .user "m.data" ∨ p = .user "hard.data" then some 0 else none }
+    let s : St := { exSt with fs := fs }
+    let cfg : Cfg := ⟨⟨"m.data", 420⟩, [⟨0, [[9, 9, 8]], none⟩, ⟨3, [[1, 2]], some ⟨"hard.data", 0, 2⟩⟩], false⟩
+    overwritten cfg s = [1] ∧ invalidated cfg s = [] ∧
+    (save cfg (fun _ => none) 0 s).final.valid 1 = true ∧
+    readT (save cfg (fun _ => none) 0 s).final 1 ⟨"hard.data", 0, 2⟩ = some [1, 2] ∧
+    content (save cfg (fun _ => none) 0 s).final (.user "m.data") = some [9, 9, 8, 1, 2] := by decide
 
 /-- unload: tensor 7 is small and external (backed by the destination); its copy holds the old bytes
 although the destination has been replaced -/
